@@ -20,7 +20,7 @@ func Harness_C07_mark() {
 	setAt := hc.expiredAt - period
 	verifAssert("C07.mark.status", hc.status == StatusHitForPass)
 	verifAssert("C07.mark.period", setAt >= before && setAt <= after)
-	verifAssert("C07.mark.waiters-drained", len(hc.chanList) == 0 && !verifLockHeld(hc.mu))
+	verifAssert("C07.mark.waiters-drained", verifChanSliceLen(hc) == 0 && !verifLockHeld(hc.mu))
 	verifReach("C07.mark.end")
 }
 
@@ -44,7 +44,7 @@ func Harness_C07_get_step() {
 	if now <= setAt+period {
 		verifReach("C07.within-period")
 		verifAssert("C07.within.forwarded-not-cached", status == StatusHitForPass && resp == nil)
-		verifAssert("C07.within.marker-untouched", hc.status == StatusHitForPass && hc.expiredAt == setAt+period && len(hc.chanList) == 0)
+		verifAssert("C07.within.marker-untouched", hc.status == StatusHitForPass && hc.expiredAt == setAt+period && verifChanSliceLen(hc) == 0)
 	} else {
 		verifReach("C07.after-period")
 		verifAssert("C07.after.single-probe", status == StatusFetching && resp == nil && hc.status == StatusFetching && hc.expiredAt == 0)
